@@ -40,12 +40,14 @@ def ro_shape(mid, roid):
 
 
 def abstract_msg(kind, mid):
-    m = project.empty_msg({"ok": "StoryAppend", "warn": "StoryDelete", "fail": "StoryReplace",
+    m = project.empty_msg({"ok": "StoryAppend", "warn": "StoryDelete", "warn2": "StoryDelete", "fail": "StoryReplace",
                            "roDelete": "RunningOrderEnd", "roReplace": "RunningOrderReplace"}[kind])
     if kind == "ok":
         m["carried"] = [story_node("N%d" % mid)]
     elif kind == "warn":
         m["ids"] = [{"shape": "id", "id": "SU"}]
+    elif kind == "warn2":
+        m["ids"] = [{"shape": "id", "id": "SU"}, {"shape": "id", "id": "SV"}]
     elif kind == "fail":
         m["story"] = {"shape": "id", "id": "SU"}
         m["carried"] = [story_node("N%d" % mid)]
